@@ -34,19 +34,48 @@ func New[T any](ctx context.Context, cap int) (<-chan T, chan<- T) {
 
 	go func() {
 		defer close(eg)
-		defer close(in)
+
+		// the sender side is closed on exit, unless the sender has closed it already
+		senderClosed := false
+		defer func() {
+			if !senderClosed {
+				close(in)
+			}
+		}()
+
+		// deliver the backlog before the receive side closes
+		flush := func() {
+			for mq.head != nil {
+				eg <- head(mq)
+				deq(mq)
+			}
+		}
 
 		for {
 			select {
 			case <-ctx.Done():
-				for mq.head != nil {
-					eg <- head(mq)
-					deq(mq)
+				// values whose send has completed may still sit in the input buffer
+				for drained := false; !drained; {
+					select {
+					case x, ok := <-in:
+						if !ok {
+							senderClosed = true
+							drained = true
+						} else {
+							enq(&x, mq)
+						}
+					default:
+						drained = true
+					}
 				}
+				flush()
 				return
 
 			case x, ok := <-in:
 				if !ok {
+					// the sender closed its side: a clean end of stream
+					senderClosed = true
+					flush()
 					return
 				}
 				enq(&x, mq)
